@@ -130,6 +130,12 @@ func (l *Listener) Wait(ctx context.Context) error {
 	// we wait either until the channel got closed or the context is done
 	select {
 	case <-l.channel:
+		// the listener could have been deregistered before the value was notified: both channels are closed then
+		// and select picks one of them at random, so the deregistration has to be checked again.
+		if l.deregistered.Load() {
+			return ErrListenerDeregistered
+		}
+
 		return nil
 	case <-l.deregisteredChan:
 		return ErrListenerDeregistered
